@@ -47,6 +47,69 @@ Proof.
   - now rewrite nth_set_nth_other by auto.
 Qed.
 
+(** ** pure facts about probe-set insertion *)
+Lemma ins_sorted_in x b y : In y (ins_sorted x b) <-> y = x \/ In y b.
+Proof.
+  induction b as [|z r IH]; cbn; [intuition|]. destruct (Nat.ltb (key_of z) (key_of x)); cbn; [rewrite IH|]; intuition.
+Qed.
+Lemma ins_item_in ord x b y : In y (ins_item ord x b) <-> y = x \/ In y b.
+Proof. unfold ins_item. destruct ord; [apply ins_sorted_in|]. rewrite in_app_iff. cbn. intuition. Qed.
+
+Lemma ins_item_keys_in ord x b k : In k (keys (ins_item ord x b)) <-> k = fst x \/ In k (keys b).
+Proof.
+  unfold keys. rewrite !in_map_iff. split.
+  - intros (y & <- & Hy). apply ins_item_in in Hy. destruct Hy as [->|Hy]; [now left|right; exists y; auto].
+  - intros [->|(y & <- & Hy)]; [exists x|exists y]; split; auto; apply ins_item_in; auto.
+Qed.
+
+Lemma ins_sorted_keys_nodup x b : ~ In (fst x) (keys b) -> NoDup (keys b) -> NoDup (keys (ins_sorted x b)).
+Proof.
+  induction b as [|z r IH]; intros Hk Hn; cbn; [constructor; [intros []|constructor]|].
+  cbn in Hk. inversion Hn; subst.
+  destruct (Nat.ltb (key_of z) (key_of x)); cbn.
+  - constructor; [|apply IH; auto]. intros Hin. apply in_map_iff in Hin. destruct Hin as (y & E & Hy).
+    apply ins_sorted_in in Hy. destruct Hy as [->|Hy].
+    + apply Hk. now left.
+    + apply H1. rewrite <- E. now apply in_map.
+  - constructor; [exact Hk|constructor; auto].
+Qed.
+
+Lemma NoDup_snoc_keys (b : list item) x : ~ In (fst x) (keys b) -> NoDup (keys b) -> NoDup (keys (b ++ [x])).
+Proof.
+  induction b as [|z r IH]; intros Hk Hn; cbn; [constructor; [intros []|constructor]|].
+  cbn in Hk. inversion Hn; subst. constructor.
+  - unfold keys. rewrite map_app, in_app_iff. cbn. intros [H|[H|[]]]; [contradiction|]. apply Hk. now left.
+  - apply IH; auto.
+Qed.
+
+Lemma ins_item_keys_nodup ord x b : khas (fst x) b = false -> NoDup (keys b) -> NoDup (keys (ins_item ord x b)).
+Proof.
+  intros Hk Hn. assert (Hk' : ~ In (fst x) (keys b)) by (intros H; apply khas_in_keys in H; congruence).
+  unfold ins_item. destruct ord; [now apply ins_sorted_keys_nodup|now apply NoDup_snoc_keys].
+Qed.
+
+Lemma khas_ins_item ord x b k : khas k (ins_item ord x b) = Nat.eqb (fst x) k || khas k b.
+Proof.
+  destruct (khas k (ins_item ord x b)) eqn:E.
+  - apply khas_in_keys in E. apply ins_item_keys_in in E. symmetry. apply orb_true_iff.
+    destruct E as [->|E]; [left; apply Nat.eqb_refl|right; now apply khas_in_keys].
+  - symmetry. apply orb_false_iff. split.
+    + apply Nat.eqb_neq. intros <-. assert (khas (fst x) (ins_item ord x b) = true); [|congruence].
+      apply khas_in_keys. apply ins_item_keys_in. now left.
+    + destruct (khas k b) eqn:E'; auto. assert (khas k (ins_item ord x b) = true); [|congruence].
+      apply khas_in_keys. apply ins_item_keys_in. right. now apply khas_in_keys.
+Qed.
+
+Lemma khas_kdel k b k' : khas k' (kdel k b) = negb (Nat.eqb k' k) && khas k' b.
+Proof.
+  destruct (khas k' (kdel k b)) eqn:E.
+  - apply khas_true in E. destruct E as (o & Hin). apply kdel_in in Hin. destruct Hin as [H1 H2]. cbn in H2.
+    symmetry. apply andb_true_iff. split; [apply negb_true_iff; now apply Nat.eqb_neq|]. apply khas_true. eauto.
+  - symmetry. apply andb_false_iff. destruct (Nat.eqb_spec k' k) as [->|Hne]; [now left|right].
+    destruct (khas k' b) eqn:E'; auto. apply khas_true in E'. destruct E' as (o & Hin).
+    assert (khas k' (kdel k b) = true); [|congruence]. apply khas_true. exists o. apply kdel_in. split; auto.
+Qed.
+
 (** ** auxiliary state *)
 Inductive micro := MNone | MTaken (l : lk) | MRel (l : lk).
 
@@ -617,6 +680,9 @@ Section Inv.
     - exact K16.
     - intros t. destruct (K17 t) as [A B]. split; auto. intros x H. rewrite Hab. auto.
   Qed.
+
+  Lemma Core_seta g a atr : Core g a -> Core g (seta a atr).
+  Proof. intros [K1 K2 K3 K4 K5 K6 K7 K8 K9 K10 K11 K12 K13 K14 K15 K16 K17]. constructor; assumption. Qed.
 
 End Inv.
 
